@@ -66,6 +66,7 @@ pub fn verif_classes() -> Vec<Class> {
     }
     src.properties.push(prop("ci", "int", true, false, None, true)); // CONSTANT
     src.properties.push(prop("nn", "int", true, true, None, false)); // no NOTIFY, not constant
+    src.properties.push(prop("pn", "VSrc*", true, true, None, false)); // object pointer without NOTIFY, not constant
     src.properties.push(prop("ro", "int", true, false, Some("roChanged"), false)); // read-only, notifying
     src.signals.push(sig("roChanged", &[]));
     src.properties.push(prop("wo", "int", false, true, None, false)); // write-only
